@@ -58,7 +58,7 @@ but the oracle accepted everything the run produced. {stats['n']} changes:
 the table), {stats['n'] - stats['own'] - stats['other']} not caught (C16-r6-m1: it only shows for a 3x4 matrix passed
 directly to an internal helper, outside the property; see its history entry).
 Two changes are caught in the thorough tier only (C02-r6-m3, C05-r6-m2: they
-need 300 MB of data; `"tier_needed": "thorough"` in their meta.json), three
+need 300 MB of data; `"tier_needed": "thorough"` in their meta.json), four
 candidates were rejected because they break unit tests, and rates of first-shot
 detection per round (before any strengthening) were roughly 70 % (rounds 1-3),
 58 % (round 4, state across calls), 68 % (round 5, breadth) and 25 % (round 6,
@@ -79,7 +79,9 @@ comprehensions, the eight hand-unrolled octant copies of
 `compute_dyadic_downscaling` folded into one loop, merged `struct.pack` calls in
 `Shard.close`, `ceil_div` for open-coded expressions, …; 17 files, +253/−260
 lines) were applied together to a scratch worktree: all 20 checks stayed quiet
-(0 violations, 0 disagreements).
+(0 violations, 0 disagreements) - both after the second round and again at
+the end of the build, after six rounds of strengthening and three more repairs
+of `/repo` (one refactoring had to be rebased onto the repaired file accessor).
 
 """
 p = os.path.join(V, "DESIGN.md"); s = open(p).read()
